@@ -87,6 +87,13 @@ def make_problem(case, counter):
                 counter.bad_args += 1
             return np.array([[r * (1.0 - 2.0 * y[0])]])
         const = None
+    elif pid == "switch":
+        def f(t, y):
+            counter.n += 1
+            s = 1.0 if t < 1.0 else 0.0
+            return [s * y[1] - 0.25 * y[0], -y[0] - 0.5 * y[1]]
+        jac = lambda t, y: np.array([[-0.25, 1.0 if t < 1.0 else 0.0], [-1.0, -0.5]])
+        const = None
     elif pid == "lin3":
         A = [[-1.0, 0.5, 0.0], [0.25, -2.0, 0.5], [0.0, 0.75, -3.0]]
         def f(t, y):
